@@ -19,7 +19,7 @@ import (
 
 type c05Params struct {
 	Spec     engine.Spec `json:"spec"`
-	Ending   string      `json:"ending"` // duration trigger-duration limit cancel-before cancel-setup cancel-eval cancel-body cancel-out setup-fail setup-panic
+	Ending   string      `json:"ending"`   // duration trigger-duration limit cancel-before cancel-setup cancel-eval cancel-body cancel-out setup-fail setup-panic
 	Blocking string      `json:"blocking"` // none gated forever
 	At       int         `json:"at"`       // evaluation m / body j / ms
 	Script   string      `json:"script"`   // "" | late-tick | slow-output
